@@ -18,9 +18,15 @@ import (
 
 // WorkspaceLocker ensures that only one grog build is running per host by
 // managing a lock file in the workspace root directory.
+//
+// The lock is an advisory flock(2) on the lock file: the kernel grants it to one open file at a time and
+// releases it when the holder exits or crashes, so there is no window in which a half-written PID file can be
+// mistaken for a stale one and no stale file can ever block a new build. The PID written into the file is
+// informational (it is what waiting builds print).
 type WorkspaceLocker struct {
 	lockFilePath string
 	printOnce    sync.Once
+	file         *os.File
 }
 
 // NewWorkspaceLocker creates a locker using the global configuration.
@@ -37,35 +43,39 @@ func (wl *WorkspaceLocker) Lock(ctx context.Context) error {
 
 	for {
 		logger.Debugf("Attempting to acquire workspace lock at %s", wl.lockFilePath)
-		file, err := os.OpenFile(wl.lockFilePath, os.O_RDWR|os.O_CREATE|os.O_EXCL, 0644)
-		if err == nil || errors.Is(err, os.ErrNotExist) {
-			_, writeErr := file.Write(pidStr)
-			file.Close()
-			if writeErr != nil {
-				os.Remove(wl.lockFilePath)
-				return writeErr
-			}
-			return nil
-		}
-		if !errors.Is(err, os.ErrExist) {
+		file, err := os.OpenFile(wl.lockFilePath, os.O_RDWR|os.O_CREATE, 0644)
+		if err != nil {
 			return err
 		}
 
-		// Read the lock file which contains the PID of the other process
-		data, readError := os.ReadFile(wl.lockFilePath)
-		if readError != nil {
-			_ = os.Remove(wl.lockFilePath)
-			continue
+		err = syscall.Flock(int(file.Fd()), syscall.LOCK_EX|syscall.LOCK_NB)
+		if err == nil {
+			// We hold the lock on the file we opened. Make sure that it is still the file at the lock path:
+			// the previous holder may have removed it (Unlock) between our open and our flock.
+			if !isSameFile(file, wl.lockFilePath) {
+				file.Close()
+				continue
+			}
+			if err := file.Truncate(0); err == nil {
+				_, err = file.WriteAt(pidStr, 0)
+			}
+			if err != nil {
+				os.Remove(wl.lockFilePath)
+				file.Close()
+				return err
+			}
+			wl.file = file
+			return nil
 		}
-		otherPid, conversionError := strconv.Atoi(strings.TrimSpace(string(data)))
-		if conversionError != nil {
-			_ = os.Remove(wl.lockFilePath)
-			continue
+		if !errors.Is(err, syscall.EWOULDBLOCK) {
+			file.Close()
+			return err
 		}
-		if !processRunning(otherPid) {
-			_ = os.Remove(wl.lockFilePath)
-			continue
-		}
+
+		// Another process (or locker) holds the lock: its PID is in the file
+		data, _ := os.ReadFile(wl.lockFilePath)
+		file.Close()
+		otherPid, _ := strconv.Atoi(strings.TrimSpace(string(data)))
 
 		if waitPrinted == false {
 			green := color.New(color.FgGreen).SprintFunc()
@@ -84,19 +94,30 @@ func (wl *WorkspaceLocker) Lock(ctx context.Context) error {
 	}
 }
 
-// Unlock releases the workspace lock.
-func (wl *WorkspaceLocker) Unlock() error {
-	return os.Remove(wl.lockFilePath)
-}
-
-func processRunning(pid int) bool {
-	if pid <= 0 {
-		return false
-	}
-	p, err := os.FindProcess(pid)
+// isSameFile reports whether the open file is the one currently found at path.
+func isSameFile(file *os.File, path string) bool {
+	openInfo, err := file.Stat()
 	if err != nil {
 		return false
 	}
-	err = p.Signal(syscall.Signal(0))
-	return err == nil || errors.Is(err, syscall.EPERM)
+	pathInfo, err := os.Stat(path)
+	if err != nil {
+		return false
+	}
+	return os.SameFile(openInfo, pathInfo)
+}
+
+// Unlock releases the workspace lock.
+func (wl *WorkspaceLocker) Unlock() error {
+	if wl.file == nil {
+		return errors.New("workspace lock is not held")
+	}
+	// Remove the file while still holding the lock, then release it by closing the file
+	removeErr := os.Remove(wl.lockFilePath)
+	closeErr := wl.file.Close()
+	wl.file = nil
+	if removeErr != nil {
+		return removeErr
+	}
+	return closeErr
 }
